@@ -131,6 +131,21 @@ claim('C14', 'proof',
       'Lean 4 proof of the rank rule + exact correspondence; numeric validation of the SVD factors (partial)',
       'DESIGN.md section 5 C14')
 
+claim('C19', 'proof',
+      'Lean 4 theorems C19_* about the names model: for the episode-independent kinds the names ARE the generic row '
+      'function (the one that computes the values) evaluated at the string operations; one name per column in the '
+      'declared widths for every tree; for delays block i is named D_i(.) and holds the data delayed by i '
+      '(chunks_delayRow); symbols_only / episode-name rules for all fit x call flags; given names verbatim. '
+      'Correspondence: get_feature_names_out verbatim for both formats x symbols_only x call flags x generated or '
+      'DataFrame names through random trees of all kinds. Oracle: a parser for the plaintext grammar evaluates every '
+      'name on the data and compares with the column; DataFrame names verbatim / mismatching names rejected.',
+      'Lean kernel + standard axioms; "each name denotes its column" is proved per kind (shared generic function; delay '
+      'block semantics) and checked end-to-end by the oracle on pipelines whose products parse unambiguously; a single '
+      'compositional denotation theorem for whole pipelines is not proved; wrapped-scaler and RBF / kernel names are '
+      'compared verbatim only.',
+      'Lean 4 proof (names as a second interpretation of the generic model) + verbatim correspondence + name-evaluating oracle',
+      'DESIGN.md section 5 C19')
+
 ALL = [f'C{i:02d}' for i in range(1, 21)]
 
 
